@@ -15,4 +15,7 @@ def srcWrites : Bool :=
   inplace.any (fun e => (e.kind == "aug" || e.kind == "store" || e.kind == "out" || e.kind == "call" || e.kind == "attr")
     && e.root != "memo" && e.fn != "TimeBase._write")
 
+/-- does a `_to_jds` / `to_jds` of the tree under test return one of its arguments (or a view of it) un-copied -/
+def srcAliases : Bool := inplace.any (fun e => e.kind == "return" && e.detail == "to_jds")
+
 end Midgard.TimeArith
